@@ -20,7 +20,7 @@ import (
 
 var isolated = map[string]bool{}
 
-const caseTimeout = 3 * time.Second
+const caseTimeout = 1500 * time.Millisecond
 
 func workerMain() {
 	// bound the address space so that an allocation storm kills this worker instead of the machine
